@@ -278,6 +278,11 @@ func c17CheckInert(c *core.Ctx, state string, recv reflect.Value, cs CallSpec, r
 			return false
 		}
 	}
+	if (cs.Method == "Valid" || cs.Method == "IsEqual") && len(results) == 1 && results[0].IsNil() {
+		// the zero result of these two is an error: an uninitialised instance is neither valid nor equal to anything
+		c.Violatef("nil-error:"+cs.Method, desc, "%s on a %s receiver returned a nil error", cs.Desc, state)
+		return false
+	}
 	for i, r := range results {
 		if initialising || isZeroResult(r) || c17Sentinel(cs.Method, i, r) {
 			continue
@@ -535,7 +540,7 @@ func init() {
 			"x receiver states {zero Stack, freed Stack, zero Condition, freed Condition, Init()-only Condition, nil Auxiliary, Auxiliary}; every exported package-level function (table cross-checked against go/parser over the repository: a missing function makes the run inconclusive) x awkward arguments; " +
 			"Free/Reset lifecycle cases on live, configured instances holding nil elements; random 6-call sequences on one zero/freed receiver. Oracle: no panic, IsZero/IsInit unchanged (except Marshal/Init), every result a zero value, an error, or a documented sentinel. " +
 			"non-trivial = every (state, call) pair that completed its checks; distinct = hash of (state, call description).",
-		Assumptions: []string{"sentinels accepted on uninitialised receivers: Kind()=<invalid_stack>, ID()=unspecified, any Addr() text, true from IsEmpty/IsZero/IsPadded, any error from Valid/IsEqual/Free/Marshal"},
+		Assumptions: []string{"sentinels accepted on uninitialised receivers: Kind()=<invalid_stack>, ID()=unspecified, any Addr() text, true from IsEmpty/IsZero/IsPadded, any error from Free/Marshal; Valid and IsEqual must return a non-nil error there"},
 		Floors: func(string) map[string]int64 {
 			return map[string]int64{"calls.zero-stack": 150, "calls.freed-stack": 150, "calls.zero-cond": 80, "calls.freed-cond": 80, "calls.init-cond": 80,
 				"calls.package-function": 100, "lifecycle.reset.with-nils": 100, "lifecycle.free.stack": 100}
